@@ -1,0 +1,18 @@
+//go:build verif
+
+// Contracts for the verification machinery in /verif (engine: govc). Comments only.
+package internal
+
+// GH_smus[arr] (ghost): the SortableMutexes set whose backing array is arr is locked by the
+// current goroutine.
+
+//@ func SortableMutexes.Lock
+//@   trusted
+//@   modifies GH_smus E_internal_SortableMutex
+//@   requires !GH_smus[s]
+//@   ensures GH_smus[s] && unchangedExcept(GH_smus, s)
+//@ func SortableMutexes.Unlock
+//@   trusted
+//@   modifies GH_smus
+//@   requires GH_smus[s]
+//@   ensures !GH_smus[s] && unchangedExcept(GH_smus, s)
